@@ -19,9 +19,9 @@ def main():
     scs = [simgen.gen_scenario(rng, opts) for _ in range(n)]
     for s in scs:
         s["clients"][0]["bpe"] = rng.random() < 0.6
-    simcheck.run_family(ck, "placements", scs, propcheck.c05, "C05", "placement")
+    simcheck.run_family(ck, "placements", scs, propcheck.c05, "C05", "placement", hyp=True)
     scs2 = [simgen.gen_scenario(rng, {"kinds": ["L"], "p_fok": 0.25, "no_remove": True, "p_remove": 0.0}) for _ in range(n // 2)]
-    simcheck.run_family(ck, "general", scs2, propcheck.c05, "C05", "general")
+    simcheck.run_family(ck, "general", scs2, propcheck.c05, "C05", "general", hyp=True)
     return ck.finish("scenarios on the real FlumineSimulation (books with 1-3 levels per side, gaps, empty sides; limit prices through/at/behind the best; sizes around what is offered; FILL_OR_KILL with min fill absent/below/equal/above the size; best-price execution on/off; full-match clients) compared observation by observation with the Coq model (both tie-breaks); independent Python checker of the property on the implementation's fragments; distinct = distinct scripts with fills or >2 packages")
 
 
